@@ -102,8 +102,8 @@ class Fault:
         """returns (data, offers, faulted) - the schedule of ValidatorFaults!Serve: every
         response of the target kind that offers something to corrupt counts as one occurrence
         until the fault has been applied; the nth (and not before min_occ) is rewritten."""
-        if kind == 'manifest':
-            self.manifests_seen += 1
+        if kind in ('manifest', 'patch'):
+            self.manifests_seen += 1          # a refresh is a full manifest or an MPD patch
         if self.applied_url is not None or kind != self.target:
             return data, 0, 0
         if self.url_filter and not re.search(self.url_filter, url):
